@@ -64,3 +64,11 @@ Theorem C19_errors : forall r,
   end.
 Proof. exact classify_spec. Qed.
 Print Assumptions C19_errors.
+
+(* ... and nothing else escapes: also the wrappers that iterate over or index the JSON result
+   (basic.get, paginated listings, top) end as documented when a 2xx response carries no JSON
+   (this was the finding non-json-2xx, see KNOWN_FINDINGS.txt) *)
+Theorem C19_nothing_else_escapes : forall gen spec k iterates r,
+  mg_prop_ok spec (MResp k iterates r) (mg_model gen (MResp k iterates r)) = true.
+Proof. exact resp_never_escapes. Qed.
+Print Assumptions C19_nothing_else_escapes.
